@@ -38,12 +38,30 @@ func (h *recHook) Send(ctx context.Context, s capnp.Send) (*capnp.Answer, capnp.
 }
 
 func (h *recHook) Recv(ctx context.Context, r capnp.Recv) capnp.PipelineCaller {
+	atomic.AddInt32(&h.active, 1)
 	if atomic.LoadInt32(&h.shutdowns) > 0 {
 		atomic.StoreInt32(&h.useAfter, 1)
 	}
+	atomic.AddInt32(&h.entered, 1)
+	if h.gate != nil && ctx.Value(blockingKey{}) != nil {
+		<-h.gate
+	}
+	atomic.AddInt32(&h.active, -1)
 	r.Reject(errMark)
 	return nil
 }
+
+// nopReturner is the Returner of calls made through RecvCall by the harness
+type nopReturner struct{}
+
+func (nopReturner) AllocResults(sz capnp.ObjectSize) (capnp.Struct, error) {
+	_, seg, err := capnp.NewMessage(capnp.SingleSegment(nil))
+	if err != nil {
+		return capnp.Struct{}, err
+	}
+	return capnp.NewStruct(seg, sz)
+}
+func (nopReturner) Return(error) {}
 
 func (h *recHook) Brand() capnp.Brand { return capnp.Brand{Value: h} }
 
@@ -114,11 +132,19 @@ func execCapScript(script string) string {
 			return "parked"
 		}
 	}
+	nbegun := 0
 	begin := func(c *capnp.Client, h *recHook) string {
 		before := atomic.LoadInt32(&ht.entered) + atomic.LoadInt32(&hp.entered)
 		fl := flight{done: make(chan struct{})}
+		viaRecv := nbegun%2 == 1 // every other call in flight is an incoming call (RecvCall), as the RPC layer delivers them
+		nbegun++
 		go func() {
-			c.SendCall(context.WithValue(context.Background(), blockingKey{}, true), capnp.Send{})
+			ctx := context.WithValue(context.Background(), blockingKey{}, true)
+			if viaRecv {
+				c.RecvCall(ctx, capnp.Recv{ReleaseArgs: func() {}, Returner: nopReturner{}})
+			} else {
+				c.SendCall(ctx, capnp.Send{})
+			}
 			close(fl.done)
 		}()
 		for i := 0; i < 2000; i++ {
